@@ -58,6 +58,18 @@ def spec(name, layout, dst1, dst2, queue, depth, **kw):
     return s
 
 
+def hotfix_spec(depth):
+    """Two pull requests on one hotfix branch, a release tag pushed between
+    them (second hotfix queue q/x.y.z.2 next to the emptied q/x.y.z.1), and
+    delete / re-create of the hotfix branch."""
+    return spec('c20-q-H3-hotfix-queues', 'H3', 'hotfix/4.2.17',
+                'hotfix/4.2.17', True, depth,
+                admin_jobs=[['delete_branch', 'hotfix/4.2.17'],
+                            ['create_branch', 'hotfix/4.2.17']],
+                tags=[['tag', '4.2.17.1', 'hotfix/4.2.17']],
+                continue_after_admin=True)
+
+
 def specs(tier):
     if tier == 'quick':
         return [spec('c20-q-D3', 'D3', 'development/4.3', 'development/5.1',
@@ -65,7 +77,8 @@ def specs(tier):
                 spec('c20-noq-S3', 'S3', 'stabilization/4.3.18',
                      'development/4.3', False, 1),
                 spec('c20-q-H3', 'H3', 'hotfix/4.2.17', 'development/4.3',
-                     True, 3)]
+                     True, 3),
+                hotfix_spec(6)]
     return [spec('c20-q-D3', 'D3', 'development/4.3', 'development/5.1',
                  True, 5),
             spec('c20-noq-D3', 'D3', 'development/4.3', 'development/5.1',
@@ -77,7 +90,8 @@ def specs(tier):
             spec('c20-q-H3', 'H3', 'hotfix/4.2.17', 'development/4.3', True,
                  5),
             spec('c20-noq-H3', 'H3', 'hotfix/4.2.17', 'development/4.3',
-                 False, 3)]
+                 False, 3),
+            hotfix_spec(8)]
 
 
 def run(tier, seed, workers=None):
